@@ -49,7 +49,7 @@ nr = %(nr)d
 xs = %(xs)s
 names = ["S%%d" %% i for i in range(len(comps))]
 subs = {n: Substance(n, composition={k: v for k, v in c.items()}) for n, c in zip(names, comps)}
-reac, prod = set(names[:nr]), set(names[nr:])
+reac, prod = (list(reversed(names[:nr])), tuple(reversed(names[nr:]))) if %(aslist)r else (set(names[:nr]), set(names[nr:]))
 keys = sorted(set().union(*[set(c) for c in comps]))
 res = [sum((-1 if i < nr else 1) * comps[i].get(k, 0) * xs[i] for i in range(len(comps))) for k in keys]
 feasible = all(r == 0 for r in res) and all(x > 0 for x in xs)
@@ -79,18 +79,22 @@ class Spy(real):
         return real.__new__(real, *a, **k)
 sympy.MutableDenseMatrix = Spy
 try:
-    balance_stoichiometry(set(names[:nr]), set(names[nr:]), substances=subs, underdetermined=True, **%(kw)s)
+    if %(aslist)r:
+        balance_stoichiometry(list(reversed(names[:nr])), tuple(reversed(names[nr:])), substances=subs, underdetermined=True)
+    else:
+        balance_stoichiometry(set(names[:nr]), set(names[nr:]), substances=subs, underdetermined=True, **%(kw)s)
 except Exception as e:
     print("raised", repr(e)); seen.append("raised")
 finally:
     sympy.MutableDenseMatrix = real
-exp = [[(-1 if i < nr else 1) * comps[i].get(k, 0) for i in range(len(comps))] for k in keys]
+order = (list(reversed(range(nr))) + list(reversed(range(nr, len(comps))))) if %(aslist)r else list(range(len(comps)))
+exp = [[(-1 if i < nr else 1) * comps[i].get(k, 0) for i in order] for k in keys]
 print("matrix", seen[0] if seen else None, "expected", exp)
 sys.exit(1 if (seen and seen[0] != exp) else 0)   # an exception before the matrix is built is a refusal of a placement that reaches the solver otherwise
 '''
 
 
-def task_shape(r, p, c, dup=False):
+def task_shape(r, p, c, dup=False, aslist=False):
     import sympy
     from chempy import Substance, balance_stoichiometry
 
@@ -120,6 +124,9 @@ def task_shape(r, p, c, dup=False):
 
         sympy.MutableDenseMatrix = Sentinel
         try:
+            if aslist:
+                # reactants / products as LISTS in reversed order: the order given is kept (only sets are sorted)
+                return balance_stoichiometry(list(reversed(names[:r])), tuple(reversed(names[r:])), substances=subs, underdetermined=True)
             return balance_stoichiometry(set(names[:r]), set(names[r:]), substances=subs, underdetermined=True, **({"allow_duplicates": True} if dup else {}))
         finally:
             sympy.MutableDenseMatrix = old
@@ -133,7 +140,8 @@ def task_shape(r, p, c, dup=False):
                 return None
             if rows is None or len(rows) != len(keys) or any(len(row) != n for row in rows):
                 return False
-            return z3.And(*[eq_term(rows[ki][i], (-1 if i < r else 1) * comps[i][k]) for ki, k in enumerate(sorted(keys)) for i in range(n)])
+            order = (list(reversed(range(r))) + list(reversed(range(r, n)))) if aslist else list(range(n))
+            return z3.And(*[eq_term(rows[ki][col], (-1 if i < r else 1) * comps[i][k]) for ki, k in enumerate(sorted(keys)) for col, i in enumerate(order)])
         if p_.kind == "exc" and not isinstance(p_.value, (Reached, ValueError)) and not wrapper_exc(p_.value):
             return False  # e.g. NotImplementedError: the species are disjoint, nothing about duplicates applies
         if p_.kind == "exc" and isinstance(p_.value, ValueError) and "not among" in str(p_.value):
@@ -156,11 +164,11 @@ def task_shape(r, p, c, dup=False):
         xv = concretize(m, xs)
         if isinstance(pth.value, Reached):
             res["violations"].append(dict(key="matrix", desc="compositions %s (first %d are reactants): matrix handed to the solver is %s" % (cc, r, pth.value.rows),
-                                          replay_src=REPLAY_MATRIX % dict(comps=pyrepr(cc), nr=r, kw=repr({"allow_duplicates": True} if dup else {}))))
+                                          replay_src=REPLAY_MATRIX % dict(comps=pyrepr(cc), nr=r, kw=repr({"allow_duplicates": True} if dup else {}), aslist=aslist)))
             continue
         res["violations"].append(dict(key="precheck:%s" % pth.kind, soft=wrapper_exc(pth.value),
                                       desc="compositions %s (first %d are reactants): %r although x=%s balances" % (cc, r, pth.value, xv),
-                                      replay_src=REPLAY % dict(comps=pyrepr(cc), nr=r, xs=pyrepr(xv), kw=repr({"allow_duplicates": True} if dup else {}))))
+                                      replay_src=REPLAY % dict(comps=pyrepr(cc), nr=r, xs=pyrepr(xv), kw=repr({"allow_duplicates": True} if dup else {}), aslist=aslist)))
     res["status"] = "violation" if res["violations"] else ("inconclusive" if res["inconclusive"] else "discharged")
     return res
 
@@ -172,4 +180,6 @@ def tasks(tier, seed):
     ts = [dict(id="C02.precheck.r%dp%dc%d" % s, fn="task_shape", kwargs=dict(r=s[0], p=s[1], c=s[2]), timeout=1800) for s in shapes]
     # the same obligations with duplicate handling switched on (species are disjoint: nothing may change)
     ts += [dict(id="C02.precheck.dup.r%dp%dc%d" % s, fn="task_shape", kwargs=dict(r=s[0], p=s[1], c=s[2], dup=True), timeout=1800) for s in shapes[:3]]
+    # reactants / products given as list / tuple (order kept) instead of sets (sorted)
+    ts += [dict(id="C02.precheck.aslist.r%dp%dc%d" % s, fn="task_shape", kwargs=dict(r=s[0], p=s[1], c=s[2], aslist=True), timeout=1800) for s in shapes[3:6]]
     return ts
